@@ -539,7 +539,14 @@ where
 		));
 	}
 
-	let orig_proof_info = tx_vec[0].clone().payment_proof;
+	// a self-send logs a received entry under the same slate id; the proof that was
+	// requested is recorded on the sent one
+	let orig_proof_info = tx_vec
+		.iter()
+		.find(|t| t.tx_type == TxLogEntryType::TxSent)
+		.unwrap_or(&tx_vec[0])
+		.clone()
+		.payment_proof;
 
 	if orig_proof_info.is_some() && slate.payment_proof.is_none() {
 		return Err(Error::PaymentProof(
